@@ -687,7 +687,9 @@ func (x *Exec) lookup(bc *blockCtx, i *ssa.Lookup) *Val {
 	cell := x.sel(x.sel(x.getHeap(bc.st, key), m, inner), k, opt)
 	present := x.b.And(x.b.Not(x.b.Eq(m, x.b.Int(0))), x.b.App("(_ is some_"+opt+")", "Bool", cell))
 	vs := x.so.SortOf(mt.Elem())
-	val := x.b.Ite(present, x.b.App("val_"+opt, vs, cell), x.zeroTerm(mt.Elem()))
+	innerV := x.b.App("val_"+opt, vs, cell)
+	x.oldRefFactsDeep(innerV, mt.Elem(), 0)
+	val := x.b.Ite(present, innerV, x.zeroTerm(mt.Elem()))
 	if i.CommaOk {
 		return &Val{Typ: i.Type(), Tup: []*Val{{Typ: mt.Elem(), T: val}, {Typ: types.Typ[types.Bool], T: present}}}
 	}
@@ -738,6 +740,8 @@ func (x *Exec) rangeInit(bc *blockCtx, i *ssa.Range) *Val {
 		ks := x.so.SortOf(mt.Key())
 		as := fmt.Sprintf("(Array %s Bool)", ks)
 		bc.st.heaps[key] = x.b.App(fmt.Sprintf("(as const %s)", as), as, x.b.False)
+		x.heapSorts[key+"_n"] = "Int"
+		bc.st.heaps[key+"_n"] = x.b.Int(0)
 	}
 	return v
 }
@@ -786,6 +790,14 @@ func (x *Exec) rangeNext(bc *blockCtx, i *ssa.Next) *Val {
 		pres := x.b.App("(_ is some_"+opt+")", "Bool", x.sel(x.sel(x.getHeap(bc.st, key), m, inner), bv, opt))
 		x.assume(bc.reach, x.b.Implies(x.b.Not(ok), x.b.Quant("forall", []*smt.Term{bv}, x.b.Implies(pres, x.sel(vis, bv, "Bool")))))
 		bc.st.heaps[vk] = x.b.Ite(ok, x.sto(vis, k.T, x.b.True), vis)
+		// the number of yielded entries: ends at len(map)
+		x.heapSorts[vk+"_n"] = "Int"
+		n := x.getHeap(bc.st, vk+"_n")
+		x.heapSorts["HMlen"] = "(Array Int Int)"
+		ml := x.sel(x.getHeap(bc.st, "HMlen"), m, "Int")
+		x.assume(bc.reach, x.b.Implies(ok, x.b.Cmp("<", n, ml)))
+		x.assume(bc.reach, x.b.Implies(x.b.Not(ok), x.b.Eq(n, ml)))
+		bc.st.heaps[vk+"_n"] = x.b.Ite(ok, x.b.Add(n, x.b.Int(1)), n)
 	}
 	vs := x.so.SortOf(mt.Elem())
 	v := &Val{Typ: mt.Elem(), T: x.b.App("val_"+opt, vs, cell)}
